@@ -131,7 +131,7 @@ for isa, arch in (("x86", "zen1"), ("aarch64", "n1")):
         # names: mostly neutral, some whose mnemonic contains the letters of the measurement tags
         name = f"vt{i}" if i % 7 else ("vtFCVTPS", "vtMULTx", "vtTPLT", "vtltp")[(i // 7) % 4] + str(i)
         forms.append((name, [c1, c2], tpv, ltv, layout))
-    lines = ["Using frequency 2.50GHz."]
+    lines = ["Using frequency 2.50GHz.", ""]
     for name, ops, tpv, ltv, layout in forms:
         tpl = f"{name}-{'_'.join(ops)}-TP: {fmt(tpv)} (clock cycles)    [DEBUG - result: 0.007813]"
         ltl = f"{name}-{'_'.join(ops)}-LT:    {fmt(ltv)} (clock cycles)    [DEBUG - result: 1.000000]"
@@ -149,7 +149,7 @@ for isa, arch in (("x86", "zen1"), ("aarch64", "n1")):
     # mnemonic the target model already knows; every imported form must be emitted
     pairs = [("x", "x"), ("y", "y"), ("x", "mb"), ("r", "r")] if isa == "x86" else [("d", "d"), ("s", "s"), ("x", "x"), ("q", "mb")]
     known = ("vaddpd", [("x", "x", "x"), ("y", "y", "y")]) if isa == "x86" else ("fadd", [("d", "d", "d"), ("s", "s", "s")])
-    for mnem, opsets, tag in (("vtsame", pairs, "same-mnemonic"), (known[0], known[1], "existing-mnemonic")):
+    for mnem, opsets, tag in (("vtsame", pairs, "same-mnemonic"), ("VTUPPER", pairs, "same-mnemonic-upper"), (known[0], known[1], "existing-mnemonic")):
         lines = ["Using frequency 2.50GHz."]
         want = []
         for j, ops in enumerate(opsets):
@@ -158,13 +158,14 @@ for isa, arch in (("x86", "zen1"), ("aarch64", "n1")):
                       f"{mnem}-{'_'.join(ops)}-LT:    {fmt(Fraction(k))} (clock cycles)    [DEBUG - result: 1.000000]"]
             want.append((ops, float(round(Fraction(1, n), 5)), float(k)))
         entries = run_import(arch, "ibench", "\n".join(lines) + "\n", raw=True)
-        imported = [e for e in entries if str(e.get("mnemonic", "")).lower() == mnem]
+        imported = [e for e in entries if str(e.get("mnemonic", "")).lower() == mnem.lower()]
         for ops, tp, lt in want:
             R.case((isa, tag, ops), sample=dict(isa=isa, form=mnem + "-" + "_".join(ops)))
             wops = [ref_operand(c, isa) for c in ops]
             hit = [e for e in imported if e.get("operands") == wops]
             if not hit:
-                R.fail(f"C20/import/{tag}/missing", f"C20:{tag}:{isa}", f"imported form {mnem}-{'_'.join(ops)} is not in the emitted model ({len(imported)} forms of that mnemonic emitted)", dict(isa=isa, form=mnem, ops=ops))
+                key_ = "C20:existing-mnemonic:x86" if (tag == "same-mnemonic-upper" and isa == "x86") else f"C20:{tag}:{isa}"
+                R.fail(f"C20/import/{tag}/missing", key_, f"imported form {mnem}-{'_'.join(ops)} is not in the emitted model ({len(imported)} forms of that mnemonic emitted)", dict(isa=isa, form=mnem, ops=ops))
             elif (hit[0].get("throughput"), hit[0].get("latency")) != (tp, lt):
                 R.fail(f"C20/import/{tag}/values", f"C20:{tag}-values:{isa}", f"{mnem}-{'_'.join(ops)}: emitted (tp, lt) = {(hit[0].get('throughput'), hit[0].get('latency'))}, measured {(tp, lt)}", dict(isa=isa, form=mnem, ops=ops))
     # ---------------- asmbench: blocks of 4 lines, corruption at each block position
@@ -174,6 +175,19 @@ for isa, arch in (("x86", "zen1"), ("aarch64", "n1")):
         n, f = TPS[(i * 11) % len(TPS)]
         k, g = LTS[(i * 3) % len(LTS)]
         blocks.append((f"vt{i}", [c1, allcodes[(i * 3 + 1) % len(allcodes)]], Fraction(1, n) * Fraction(f), Fraction(k) * Fraction(g)))
+    # file endings: closing empty line of the last block missing / one extra empty line: all blocks are imported
+    for ending in ("no-closing-line", "extra-empty-line"):
+        text = []
+        for name, ops, tpv, ltv in blocks[:3]:
+            text += [f"{name}-{'_'.join(ops)}", f"Latency: {fmt(ltv)} cy", f"Throughput: {fmt(tpv)} cy", ""]
+        text = text[:-1] if ending == "no-closing-line" else text + [""]
+        R.case((isa, "asmbench-ending", ending), sample=dict(isa=isa, bench="asmbench", ending=ending))
+        try:
+            got = run_import(arch, "asmbench", "\n".join(text) + "\n")
+            for name, ops, tpv, ltv in blocks[:3]:
+                check_entry("asmbench", got.get(name), name, ops, isa, ref_tp(fmt(tpv)), ref_lt(fmt(ltv)), dict(isa=isa, bench="asmbench", ending=ending))
+        except Exception as e:
+            R.fail("C20/import/asmbench/crash", f"{isa}:asmbench-ending", f"asmbench file with {ending}: import raised {e!r}")
     for bad in [None] + list(range(len(blocks) if A.tier == "thorough" else 5)):
         text = []
         for j, (name, ops, tpv, ltv) in enumerate(blocks):
